@@ -59,15 +59,29 @@ def agg_reachable(c, blocks, adt_suffix, variant=None):
     return [(i, j, s) for (i, j, s) in c.aggregates(adt=adt_suffix, variant=variant) if i in blocks]
 
 
+def _put_helper(db, body):
+    """The single function of the same file, called directly by `body`, that performs the put_opts (one-level summary)."""
+    helpers = {}
+    for _, t in body.cfg.calls():
+        for g in db.fns.values():
+            if g.file == body.file and g.kind in ("fn", "method") and g.focus and (t.get("rid") == g.id or t.get("id") == g.id):
+                gb = user_body(db, g)
+                if any(has_name(x, "::put_opts") for _, x in gb.cfg.calls()):
+                    helpers[g.id] = gb
+    return list(helpers.values())[0] if len(helpers) == 1 else None
+
+
 def check_conditional_put(db, chk, h):
     R = "HANDLER-condput"
     body = user_body(db, h)
     chk.analysed(body)
     c = body.cfg
     muts = mutating_calls(body)
-    names = sorted({name_of(t).split("::")[-1] for _, t in muts})
+    helper = _put_helper(db, body) if not any(has_name(t, "::put_opts") for _, t in muts) else None
+    names = sorted({name_of(t).split("::")[-1] for _, t in muts + (mutating_calls(helper) if helper else [])})
     chk.ob(R, "only-put_opts", names == ["put_opts"],
-           "store-mutating calls in ConditionalPutCommitHandler::commit: %s (required: exactly put_opts)" % names,
+           "store-mutating calls in ConditionalPutCommitHandler::commit%s: %s (required: exactly put_opts)" % (
+               " and its helper %s" % helper.path.split("::")[-1] if helper else "", names),
            body.loc())
     fps = fnptr_calls(body)
     chk.ob(R, "one-writer-call", len(fps) == 1, "manifest-writer fn-pointer calls: %d (expected 1)" % len(fps), body.loc())
@@ -108,7 +122,7 @@ def check_conditional_put(db, chk, h):
         chk.ob(R, "put_opts-mode-create", mode_ok, det, body.loc(t["ln"]))
         chk.sample({"handler": "ConditionalPut", "put_opts": det, "line": t["ln"]})
     # error mapping closure: AlreadyExists | Precondition -> CommitConflict
-    clos = [k for k in body.children() if k.kind == "closure"]
+    clos = [k for k in body.children() if k.kind == "closure"] + ([k for k in helper.family() if k.kind == "closure"] + [helper] if helper else [])
     mapped = False
     for k in clos:
         kc = k.cfg
@@ -127,6 +141,31 @@ def check_conditional_put(db, chk, h):
                                                           "something other than CommitConflict"), k.loc())
                     mapped = True
     chk.ob(R, "err-map-present", mapped, "error-mapping closure over object_store::Error found: %s" % mapped, body.loc())
+    # the create-only put alone decides who wins: from its error edge no success value is produced without another
+    # create-only put (a plain retry is fine; "it exists, it is probably ours" after a head / size comparison is not) --
+    # checked in commit() or, when the put lives in a helper of the same file, in that helper
+    where = helper or body
+    if helper:
+        chk.analysed(helper)
+    wc = where.cfg
+    puts = [(b, t) for b, t in wc.calls() if has_name(t, "::put_opts") and "::{closure#" not in name_of(t)]
+    if not puts:
+        chk.ob(R, "win-only-from-create", False, "no create-only put_opts found in commit() or a direct helper of the same file", body.loc())
+    else:
+        oks_ret = [i for (i, j, s) in wc.aggregates(adt="Result", variant="Ok") if s["lhs"] == [0]]
+        put_blocks = [b for b, _ in puts]
+        bad = []
+        for b, t in puts:
+            p_ok, p_err, _ = ok_targets(wc, b)
+            r_err = wc.reachable_from(list(p_err), include_start=True, avoid=list(p_ok) + put_blocks) if p_err else set()
+            if any(o in r_err for o in oks_ret):
+                bad.append("line %s: a success value is returned from the put's error edge" % t["ln"])
+            probes = [name_of(x).split("::")[-1] for bb, x in wc.calls() if bb in r_err and has_name(x, "ObjectStore>::head", "ObjectStore::head", "ObjectStore>::get", "ObjectStore::get")]
+            if probes:
+                bad.append("line %s: the store is probed (%s) on the put's error edge" % (t["ln"], sorted(set(probes))))
+        chk.ob(R, "win-only-from-create", not bad,
+               "in %s the create-only put alone decides the outcome (%s)" % (where.path.split("::{closure")[0].split("::")[-1], "; ".join(bad) or "no success value and no store probe on its error edge"),
+               where.loc(puts[0][1]["ln"]))
 
 
 def check_rename(db, chk, h):
